@@ -1,0 +1,73 @@
+//go:build verif
+
+package verifhook
+
+// Whole console UI sessions (property C22): the harness feeds scripts of input
+// lines to the real UI.processCommand of a UI built exactly like cmd/mltwist
+// builds it and watches the line reader, the mode stack and the views.
+
+import (
+	"mltwist/internal/consoleui"
+	"mltwist/internal/consoleui/disassemble"
+	"mltwist/internal/consoleui/emulate"
+	"mltwist/internal/consoleui/internal/linereader"
+	"mltwist/internal/consoleui/internal/memview"
+	"regexp"
+	"strings"
+)
+
+// SuidSetInput makes the UI read its input lines from text. onLine is called
+// for every line delivered by linereader.ReadLine, onEOF for every ReadLine
+// call at the end of the input.
+func SuidSetInput(text string, onLine func(), onEOF func()) {
+	linereader.VerifSuidSetInput(strings.NewReader(text), onLine, onEOF)
+}
+
+// SuidPrint calls View().Print(n) of the mode with stdout captured. status is
+// "ok" (nil returned), "err" (an error returned) or "PANIC"; newlines is the
+// number of '\n' bytes written.
+func SuidPrint(m consoleui.Mode, n int) (status string, newlines int) {
+	status = "ok"
+	out := CaptureStdout(func() {
+		defer func() {
+			if p := recover(); p != nil {
+				status = "PANIC"
+			}
+		}()
+		if err := m.View().Print(n); err != nil {
+			status = "err"
+		}
+	})
+	return status, strings.Count(out, "\n")
+}
+
+// SuidCursor returns the cursor of the view of a mode: kind is "dis"
+// (disassembler mode), "emu" (emulator mode) or "mem" (memory view).
+func SuidCursor(kind string, m consoleui.Mode) int {
+	switch kind {
+	case "dis":
+		return disassemble.VerifView(m).Cursor.Value()
+	case "emu":
+		return emulate.VerifSuicLineView(m).Cursor.Value()
+	case "mem":
+		v, _ := memview.VerifC32Cursor(m)
+		return v
+	}
+	panic("unknown mode kind " + kind)
+}
+
+// SuidMatchVector compiles pattern like the find command does and reports for
+// every line of the listing of the disassembler mode m whether it matches; ok
+// is false if the pattern does not compile.
+func SuidMatchVector(m consoleui.Mode, pattern string) (v []bool, ok bool) {
+	re, err := regexp.CompilePOSIX(pattern)
+	if err != nil {
+		return nil, false
+	}
+	ls := disassemble.VerifView(m).Lines
+	v = make([]bool, ls.Len())
+	for i := range v {
+		v[i] = re.MatchString(ls.Index(i).String())
+	}
+	return v, true
+}
